@@ -29,7 +29,14 @@ import (
 	"time"
 
 	dimodels "github.com/hyperledger/aries-framework-go/component/models/dataintegrity/models"
+	"github.com/hyperledger/aries-framework-go/component/models/ld/processor"
 	"github.com/hyperledger/aries-framework-go/component/models/ld/proof"
+	"github.com/hyperledger/aries-framework-go/component/models/ld/testutil"
+	"github.com/hyperledger/aries-framework-go/component/models/signature/suite/bbsblssignature2020"
+	"github.com/hyperledger/aries-framework-go/component/models/signature/suite/ecdsasecp256k1signature2019"
+	"github.com/hyperledger/aries-framework-go/component/models/signature/suite/ed25519signature2018"
+	"github.com/hyperledger/aries-framework-go/component/models/signature/suite/ed25519signature2020"
+	"github.com/hyperledger/aries-framework-go/component/models/signature/suite/jsonwebsignature2020"
 	"github.com/hyperledger/aries-framework-go/component/models/verifiable"
 	afgotime "github.com/hyperledger/aries-framework-go/component/models/util/time"
 )
@@ -457,6 +464,10 @@ func main() {
 	// systematic table of payloads: every subset of the registered claims x issuer shape x layout
 	probes, probeFmt := jwtProbes()
 
+	// --- which proof options reach the bytes that are signed, per stock suite and signature representation: EXECUTED
+	// (proof.CreateVerifyData with the real suite, the real canonicaliser and the suite's published context)
+	coverage := suiteCoverage(supported)
+
 	var b strings.Builder
 
 	b.WriteString("(* GENERATED by harness/c07gen from /repo (component/models/ld/proof/{data,jws,proof}.go,\n")
@@ -483,6 +494,9 @@ func main() {
 	b.WriteString("Definition supported_proof_types : list string := " + coqList(supported) + ".\n")
 	b.WriteString("(* the members of dataintegrity models.Proof, all strings (reflection) *)\n")
 	b.WriteString("Definition di_proof_members : list string := " + coqList(diProofMembers) + ".\n")
+	b.WriteString("(* proof.CreateVerifyData executed per stock suite (its published context) and representation (true = detached JWS):\n")
+	b.WriteString("   does a change of the option change the bytes to be signed *)\n")
+	b.WriteString("Definition suite_option_coverage : list (string * bool * list (string * bool)) := [\n  " + strings.Join(coverage, ";\n  ") + "].\n")
 	b.WriteString("(* verifiable.JWTVCToJSON executed on a table of payloads: (payload, decoded credential or None) *)\n")
 	b.WriteString("Definition jwt_probe_fmt : list (Z * string) := [" + strings.Join(probeFmt, "; ") + "].\n")
 	b.WriteString("Definition jwt_probes : list (list (string * json) * option (list (string * json))) := [\n  " + strings.Join(probes, ";\n  ") + "].\n")
@@ -649,4 +663,109 @@ func jwtProbes() ([]string, []string) {
 	}
 
 	return out, fmtTab
+}
+
+// ---------- executed coverage of the proof options ----------
+
+type ldSuite interface {
+	GetCanonicalDocument(doc map[string]interface{}, opts ...processor.Opts) ([]byte, error)
+	GetDigest(doc []byte) []byte
+	CompactProof() bool
+}
+
+func suiteCoverage(supported []string) []string {
+	loader, err := testutil.DocumentLoader()
+	if err != nil {
+		fail("document loader: %v", err)
+	}
+
+	const vcCtx = "https://www.w3.org/2018/credentials/v1"
+
+	stock := map[string]struct {
+		s   ldSuite
+		ctx string
+	}{
+		"Ed25519Signature2018":        {ed25519signature2018.New(), ""}, // defined (protected) by credentials/v1 itself
+		"Ed25519Signature2020":        {ed25519signature2020.New(), "https://w3id.org/security/suites/ed25519-2020/v1"},
+		"JsonWebSignature2020":        {jsonwebsignature2020.New(), "https://w3id.org/security/suites/jws-2020/v1"},
+		"EcdsaSecp256k1Signature2019": {ecdsasecp256k1signature2019.New(), ""},
+		"BbsBlsSignature2020":         {bbsblssignature2020.New(), "https://w3id.org/security/bbs/v1"},
+	}
+
+	created := time.Date(2021, 2, 3, 4, 5, 6, 0, time.UTC)
+	created2 := time.Date(2021, 2, 3, 4, 5, 7, 0, time.UTC)
+
+	base := func(typ string, jws bool) *proof.Proof {
+		p := &proof.Proof{Type: typ, Created: afgotime.NewTime(created), VerificationMethod: "did:example:i#k1",
+			ProofPurpose: "assertionMethod", Domain: "shop.example", Challenge: "c-1", Nonce: []byte("nonce-1"),
+			SignatureRepresentation: proof.SignatureProofValue, ProofValue: []byte("sig")}
+		if jws {
+			p.SignatureRepresentation = proof.SignatureJWS
+			p.ProofValue = nil
+			p.JWS = "eyJhbGciOiJFZERTQSIsImI2NCI6ZmFsc2UsImNyaXQiOlsiYjY0Il19..c2ln"
+		}
+
+		return p
+	}
+
+	edits := []struct {
+		name string
+		f    func(p *proof.Proof)
+	}{
+		{"created", func(p *proof.Proof) { p.Created = afgotime.NewTime(created2) }},
+		{"verificationMethod", func(p *proof.Proof) { p.VerificationMethod = "did:example:i#k2" }},
+		{"proofPurpose", func(p *proof.Proof) { p.ProofPurpose = "authentication" }},
+		{"domain", func(p *proof.Proof) { p.Domain = "evil.example" }},
+		{"challenge", func(p *proof.Proof) { p.Challenge = "c-2" }},
+		{"nonce", func(p *proof.Proof) { p.Nonce = []byte("nonce-2") }},
+		{"domain-removed", func(p *proof.Proof) { p.Domain = "" }},
+		{"challenge-removed", func(p *proof.Proof) { p.Challenge = "" }},
+	}
+
+	var out []string
+
+	for _, typ := range supported {
+		st, ok := stock[typ]
+		if !ok {
+			continue // derived proofs (BbsBlsSignatureProof2020) are not made by signing
+		}
+
+		for _, jws := range []bool{false, true} {
+			doc := func() map[string]interface{} {
+				ctx := []interface{}{vcCtx}
+				if st.ctx != "" {
+					ctx = append(ctx, st.ctx)
+				}
+
+				return map[string]interface{}{
+					"@context": ctx, "id": "urn:uuid:1", "type": []interface{}{"VerifiableCredential"},
+					"issuer": "did:example:i", "issuanceDate": "2020-01-01T00:00:00Z",
+					"credentialSubject": map[string]interface{}{"id": "did:example:s"},
+				}
+			}
+
+			ref, err := proof.CreateVerifyData(st.s, doc(), base(typ, jws), processor.WithDocumentLoader(loader))
+			if err != nil {
+				fail("CreateVerifyData %s: %v", typ, err)
+			}
+
+			var cols []string
+
+			for _, e := range edits {
+				p := base(typ, jws)
+				e.f(p)
+
+				got, err := proof.CreateVerifyData(st.s, doc(), p, processor.WithDocumentLoader(loader))
+				if err != nil {
+					fail("CreateVerifyData %s %s: %v", typ, e.name, err)
+				}
+
+				cols = append(cols, fmt.Sprintf("(%s, %v)", coqStr(e.name), string(got) != string(ref)))
+			}
+
+			out = append(out, fmt.Sprintf("(%s, %v, [%s])", coqStr(typ), jws, strings.Join(cols, "; ")))
+		}
+	}
+
+	return out
 }
